@@ -111,6 +111,7 @@ Inductive wmsg :=
 
 Inductive exn :=
 | XProtocolError | XTransportLost | XTypeError | XAttributeError
+| XKeyError
 | XException          (* plain Exception: "subscription no longer active", "session already joined", ... *)
 | XNoObject.          (* harness-level: the Subscription/Registration object named by the op does not exist *)
 
@@ -366,7 +367,9 @@ Definition run_leaf (fl : flavour) (cfg : ucfg) (s : sess) (l : leaf) : sess * l
       let s1 := set_invs s (remove1 rq (invs s)) in
       if transport s then
         let '(o, ok) := send cfg s1 (MYield rq) in
-        (s1, o ++ (if ok then [] else match fl with Tx => [] | Aio => [LoopError XTransportLost] end))
+        (* asyncio: success() raised (TransportLost) after deleting the invocation; txaio then calls error(err),
+           whose `del self._invocations[msg.request]` raises KeyError into the loop *)
+        (s1, o ++ (if ok then [] else match fl with Tx => [] | Aio => [LoopError XKeyError] end))
       else (s1, [])
   end.
 
